@@ -8,6 +8,8 @@ import Uniflow.Props.C05TieFn1
 import Uniflow.Props.C05TieFn2
 import Uniflow.Props.C01TieFn1
 import Uniflow.Props.C01TieFn2
+import Uniflow.Props.C05TieLayer
+import Uniflow.Props.C01TieLayer
 
 theorem C08.dep_C06_symbol_symbol_as_modelled : type_of% C06.src_symbol_symbol_as_modelled := C06.src_symbol_symbol_as_modelled
 theorem C08.dep_C07_symbol_loadhook_as_modelled : type_of% C07.src_symbol_loadhook_as_modelled := C07.src_symbol_loadhook_as_modelled
@@ -21,3 +23,7 @@ theorem C08.dep_C01_packet_packet_as_modelled : type_of% C01.src_packet_packet_a
 theorem C08.dep_C01_packet_reader_as_modelled : type_of% C01.src_packet_reader_as_modelled := C01.src_packet_reader_as_modelled
 theorem C08.dep_C01_packet_writer_as_modelled_1 : type_of% C01.src_packet_writer_as_modelled_1 := C01.src_packet_writer_as_modelled_1
 theorem C08.dep_C01_packet_writer_as_modelled_2 : type_of% C01.src_packet_writer_as_modelled_2 := C01.src_packet_writer_as_modelled_2
+theorem C08.dep_C05_port_listener_as_modelled : type_of% C05.src_port_listener_as_modelled := C05.src_port_listener_as_modelled
+theorem C08.dep_C05_port_openhook_as_modelled : type_of% C05.src_port_openhook_as_modelled := C05.src_port_openhook_as_modelled
+theorem C08.dep_C05_port_closehook_as_modelled : type_of% C05.src_port_closehook_as_modelled := C05.src_port_closehook_as_modelled
+theorem C08.dep_C01_packet_hook_as_modelled : type_of% C01.src_packet_hook_as_modelled := C01.src_packet_hook_as_modelled
